@@ -164,14 +164,14 @@ theorem candset_safe_wide (k : FilterKind) (m : Measure) (hm : SetMeasure m) (th
     (h4 : k = .suffix → prefThr m ≤ thrVal th)
     (tok : String → List Tok) (hnd : ∀ s, (tok s).Nodup) (hsm : ∀ s, (tok s).length < 2 ^ 32)
     (a : CandsetArgs) (cpu : Int) (c l r fr : Frame)
-    (hval : EntryFilters.CandsetValid a c l r) (hres : filterCandset a (filterPair k f tok) cpu = .ok fr)
+    (hval : EntryFilters.CandsetValid a c l r) (hres : filterCandset a (filterPairPy k f tok) cpu = .ok fr)
     (cr ls rs : Row) (hcr : cr ∈ c.rows) (hls : ls ∈ l.rows) (hrs : rs ∈ r.rows)
     (hkl : keyOf l a.lKey ls = cr.cell (c.colIdx a.candLKey)) (hkr : keyOf r a.rKey rs = cr.cell (c.colIdx a.candRKey))
     (hlp : Present l a.lAttr ls) (hrp : Present r a.rAttr rs)
     (hne : ¬ ((tokensOf tok l a.lAttr ls).length = 0 ∧ (tokensOf tok r a.rAttr rs).length = 0))
     (s : Rat) (hs : simSet m (tokensOf tok l a.lAttr ls) (tokensOf tok r a.rAttr rs) = .float s) (hq : thrVal th ≤ s) :
     cr ∈ fr.rows :=
-  candset_safe_of_pair a _ cpu c l r fr hval hres cr ls rs hcr hls hrs hkl hkr
+  candset_safe_of_pair a _ _ (filterPairPy_ok_eq k f tok) cpu c l r fr hval hres cr ls rs hcr hls hrs hkl hkr
     (EntryWide.filterPair_safe_set_wide k m hm th hth f hmeas hthr tok hnd hsm _ _ hlp hrp hne s hs hq h4)
 
 /-! ## non-vacuity: the fixtures of `EntryFilters.Ex` at a threshold below `2⁻²⁰` and at the int threshold `1` -/
@@ -199,7 +199,7 @@ example : filterPair .size { cfg := { measure := .jaccard, threshold := .int 1 }
 example : ∃ fr, filterTables .prefix { cfg := cfgWith .jaccard (.float (1 / 2 ^ 30)) } exA exT exToks 4 = .ok fr ∧
     ∃ row ∈ fr.rows, rowKeys row = (Cell.int 1, Cell.int 7) := by
   obtain ⟨fr, hfr⟩ := tables_returns_frame .prefix { cfg := cfgWith .jaccard (.float (1 / 2 ^ 30)) } exA exT exToks 4
-    exL exR ex_valid ex_keys
+    exL exR ex_valid ex_keys (by decide +kernel)
   refine ⟨fr, hfr, ?_⟩
   exact tables_safe_prefix_wide .jaccard (Or.inl rfl) _ (thrSmall .jaccard) _ rfl rfl exA exT exToks 4 exL exR fr
     ex_valid ex_keys (by decide) exTok_nodup exTok_small hfr [.int 1, .str "x"] [.int 7, .str "y"]
@@ -207,10 +207,10 @@ example : ∃ fr, filterTables .prefix { cfg := cfgWith .jaccard (.float (1 / 2 
 
 /-- the one-row candidate set of C04.lean referencing rows 1 / 7: PositionFilter's `filter_candset` at threshold `2⁻³⁰`
     keeps the row -/
-example : ∃ fr, filterCandset exCA (filterPair .position { cfg := cfgWith .jaccard (.float (1 / 2 ^ 30)) } exTok) 4 = .ok fr ∧
+example : ∃ fr, filterCandset exCA (filterPairPy .position { cfg := cfgWith .jaccard (.float (1 / 2 ^ 30)) } exTok) 4 = .ok fr ∧
     [Cell.int 0, .int 1, .int 7] ∈ fr.rows := by
-  obtain ⟨fr, hfr, -, -⟩ := candset_keeps_iff exCA
-    (filterPair .position { cfg := cfgWith .jaccard (.float (1 / 2 ^ 30)) } exTok) 4 exC exL exR exCA_valid
+  obtain ⟨fr, hfr, -, -⟩ := candset_keeps_iff_filter .position
+    { cfg := cfgWith .jaccard (.float (1 / 2 ^ 30)) } exTok exCA 4 exC exL exR exCA_valid (by decide) (by decide)
   exact ⟨fr, hfr, candset_safe_wide .position .jaccard (Or.inl rfl) _ (thrSmall .jaccard) _ rfl rfl (fun h => by cases h)
     exTok exTok_nodup exTok_small exCA 4 exC exL exR fr exCA_valid hfr _ [.int 1, .str "x"] [.int 7, .str "y"]
     (by decide) (by decide) (by decide) (by decide) (by decide) (by unfold Present; decide) (by unfold Present; decide)
